@@ -64,6 +64,7 @@ struct Planned {
 }
 
 const TARGETS: &[&str] = &[
+    "read.before_pin",
     "insert.after_read",
     "update.before_entry",
     "cas.before_swap",
@@ -128,7 +129,9 @@ pub fn run_lin(args: &Args, report: &mut Report) {
     let batch = 50;
     'outer: while h < histories {
         let target = TARGETS[((h / batch) as usize + shard as usize) % TARGETS.len()];
-        let ctl = Arc::new(SchedCtl::new(args.seed ^ h, 40, 150).target(target, 350, 250));
+        // a reader held back before it pins a device-resident value meets generations that were replaced,
+        // made durable elsewhere and retired in the meantime (the flusher thread of persistent histories)
+        let ctl = Arc::new(SchedCtl::new(args.seed ^ h, 40, 150).target(target, 350, if target == "read.before_pin" { 900 } else { 250 }));
         hub().set_sched(Some(ctl.clone()));
         for _ in 0..batch {
             h += 1;
@@ -288,9 +291,21 @@ fn one_history(store: &Arc<FeoxStore>, cfg: &Cfg, seed: u64, hid: u64, explicit:
         }
     }
     // run
-    let barrier = Arc::new(Barrier::new(nthreads));
+    let barrier = Arc::new(Barrier::new(nthreads + usize::from(cfg.persistent)));
     let mut handles = Vec::new();
     let keys = Arc::new(keys);
+    // persistent stores: explicit flushes race the history (not part of it: flush is not a map operation), so
+    // that replaced generations are retired and values move to the device while calls are in flight
+    let flusher = cfg.persistent.then(|| {
+        let (store, barrier) = (store.clone(), barrier.clone());
+        std::thread::spawn(move || {
+            barrier.wait();
+            for _ in 0..4 {
+                let _ = store.flush();
+                std::thread::sleep(std::time::Duration::from_micros(150));
+            }
+        })
+    });
     for (t, ops) in plans.into_iter().enumerate() {
         let (store, barrier, keys) = (store.clone(), barrier.clone(), keys.clone());
         handles.push(std::thread::spawn(move || {
@@ -305,6 +320,9 @@ fn one_history(store: &Arc<FeoxStore>, cfg: &Cfg, seed: u64, hid: u64, explicit:
             }
             out
         }));
+    }
+    if let Some(f) = flusher {
+        let _ = f.join();
     }
     let mut per_key: Vec<Vec<Event>> = vec![Vec::new(); nkeys];
     for hnd in handles {
